@@ -32,7 +32,7 @@ def seeds():
     for d in sorted(glob.glob(V + "/seeded/C*")):
         m = json.load(open(os.path.join(d, "meta.json")))
         pid = m["property"]; k = os.path.basename(d).split("-")[1]
-        rnd = k[1] if k.startswith("r") and len(k) > 2 and k[1] in "2345" else "1"
+        rnd = k[1] if k.startswith("r") and len(k) > 2 and k[1] in "23456" else "1"
         title = (m.get("title", "") or "").replace("|", "/")[:150]
         conf = m.get("confirmation", {}).get("confirmed")
         pc = m.get("polycheck", {}).get(pid, {})
